@@ -245,7 +245,7 @@ Section Handlers.
       destruct (process_message _ _ _ _ sv1 _) as [[[[] sv2] r2]|?|?]; try discriminate.
       intros [= _ <-]. apply Forall_rev. apply H. constructor.
     - destruct (update_last_cmid _ _ _ _ sv); [intros [= _ <-]; constructor|discriminate].
-    - destruct parsed; intros [= _ <-]; constructor.
+    - destruct (config_in_force _ _ _); intros [= _ <-]; constructor.
   Qed.
 End Handlers.
 
@@ -322,5 +322,5 @@ Proof.
     destruct (process_message _ _ _ _ sv1 _) as [[[[] sv2] r2]|?|?]; cbn; try discriminate.
     intros [= <-]. right. right. rewrite maybe_delete_session_lp. reflexivity.
   - destruct (update_last_cmid _ _ _ _ sv) as [sv1|] eqn:Hu; cbn; intros [= <-]; left; [eapply update_last_cmid_lp; eauto|reflexivity].
-  - destruct parsed; cbn; intros [= <-]; now left.
+  - destruct (config_in_force _ _ _); cbn; intros [= <-]; now left.
 Qed.
